@@ -65,6 +65,26 @@ FAN_FB = [((("tie_fanout_fb_%s" % k), "CM.GoTie.GoFanout.fb_%s" % k, "`FallbackM
 FAN_CIRC = [((("tie_fanout_circuit_%s" % k), "CM.GoTie.GoFanout.circ_%s" % k, "`MetricsCollection.%s` tells every circuit-level collector exactly once, in order" % k), "T_GoFanCirc")
             for k in ("Opened", "Closed")]
 
+ROLL = T("GoRollingBuckets", [
+    ("tie_rolling_Advance", "CM.GoTie.GoRolling.go_Advance_eq", "today's `RollingBuckets.Advance` (sequential CompareAndSwap, fuel ≥ 2 for its self-calls) computes the model's `RC.advance`: before the start / older than the window ⇒ -1, same bucket, backwards inside the window, forward with the clearing loop")]) + T("GoRollingCounter", [
+    ("tie_rolling_Inc", "CM.GoTie.GoRolling.go_Inc_eq", "`Inc` = `RC.inc`: the total always, the bucket and the rolling sum only when Advance accepts the instant"),
+    ("tie_rolling_RollingSumAt", "CM.GoTie.GoRolling.go_RollingSumAt_eq", "`RollingSumAt` = `RC.sumAt`"),
+    ("tie_rolling_TotalSum", "CM.GoTie.GoRolling.go_TotalSum_eq", "`TotalSum`"),
+    ("tie_rolling_clearBucket", "CM.GoTie.GoRolling.go_clearBucket_eq", "`clearBucket` = `RC.clear`: the bucket is swapped to 0 and taken off the rolling sum"),
+    ("tie_rolling_Reset", "CM.GoTie.GoRolling.go_Reset_eq", "`Reset` = `RC.reset`: every bucket cleared, the total stays"),
+    ("tie_rolling_GetBuckets", "CM.GoTie.GoRolling.go_GetBuckets_eq", "`GetBuckets` = `RC.getBuckets`: newest first")])
+
+MGR = T("GoManager", [
+    ("tie_manager_CreateCircuit", "CM.GoTie.GoManager.go_CreateCircuit_eq", "today's `CreateCircuit` computes the model's `Mgr.create`: existence test FIRST (a failed create runs no constructor), explicit configs in argument order, default constructors from last to first, library defaults last, one new map entry"),
+    ("tie_manager_GetCircuit", "CM.GoTie.GoManager.go_GetCircuit_eq", "`GetCircuit` reads the map"),
+    ("tie_manager_MustCreateCircuit", "CM.GoTie.GoManager.go_MustCreateCircuit_eq", "`MustCreateCircuit`: the created circuit, or a panic with nothing changed")])
+
+SD = T("GoSortedDurations", [
+    ("tie_sd_Min", "CM.GoTie.GoSD.go_Min_eq", "today's `SortedDurations.Min` = `SD.min`"),
+    ("tie_sd_Max", "CM.GoTie.GoSD.go_Max_eq", "`Max` = `SD.max`"),
+    ("tie_sd_Mean", "CM.GoTie.GoSD.go_Mean_eq", "`Mean` = `SD.mean`: int64 sum with wrap-around, truncated division, -1 when empty"),
+    ("tie_sd_Percentile", "CM.GoTie.GoSD.go_Percentile_eq", "`Percentile(p)` = `SD.percentile` for every finite p: the two neighbours at floor/ceil of p/100·(n-1) in binary64, weighted; Go's index panic exactly where the model says `none`")])
+
 PROPS = {
     "C01": ("load shedding: who is admitted is decided by `allowNewRun` / `run`",
             [C("IsOpen"), C("allowNewRun"), RUN]),
@@ -101,7 +121,10 @@ PROPS = {
     "C10": ("panics: the deferred calls of `run` and `fallback` run on every exit", [RUN, FALLBACK, EXECUTE]),
     "C12": ("every timestamp is a reading of the configured clock: all translated functions of circuit.go",
             [C("now"), C("OpenCircuit"), C("CloseCircuit"), RUN, FALLBACK] + ALL),
+    "C13": ("the rolling counter: rolling_bucket.go's `Advance` and rolling_counter.go's methods are the model `RC`", ROLL),
+    "C15": ("the snapshot's numbers: rolling_percentile.go's SortedDurations methods are the model `SD`", SD),
     "C16": ("the gate: timedcheck.go's method bodies are the model `TC`", TC),
+    "C17": ("the registry: manager.go's CreateCircuit / GetCircuit / MustCreateCircuit are the model `Mgr`", MGR),
     "C20": ("the collectors' method bodies, translated from today's rolling.go / responsetime.go, are the model's functions",
             T("GoRunStats", evs("GoRunStats", "Cons.RunStats.onRun") + [
                 ("tie_GoRunStats_ErrorsAt", "CM.GoTie.GoRunStats.go_ErrorsAt_eq", "errors = failures + timeouts, both read at the same instant"),
@@ -123,7 +146,9 @@ PROPS = {
 # which regenerated units each property's tie depends on (-> lib/props.py "generated")
 UNITS = {"F_": "gocircuit", "All": "gocircuit", "T_GoHOpener": "gohopener", "T_GoHCloser": "gohcloser", "T_GoConsec": "goconsec", "T_GoRunStats": "gorunstats",
          "T_GoFbStats": "gofbstats", "T_GoSlo": "goslo", "T_GoTimedCheck": "gotimedcheck", "T_GoLiveCfg": "golivecfg",
-         "T_GoFanRun": "gofanrun", "T_GoFanFb": "gofanfb", "T_GoFanCirc": "gofancirc", "T_GoSetCfg": "gosetcfg", "T_GoStream": "gostream"}
+         "T_GoFanRun": "gofanrun", "T_GoFanFb": "gofanfb", "T_GoFanCirc": "gofancirc", "T_GoSetCfg": "gosetcfg", "T_GoStream": "gostream", "T_GoRollingBuckets": "gorollingbuckets", "T_GoRollingCounter": "gorollingcounter",
+         "T_GoManager": "gomanager", "T_GoSortedDurations": "gosorteddurations", "T_GoRollingBucketsP": "gorollingbucketsp",
+         "T_GoRollingPercentile": "gorollingpercentile", "T_GoDurationsBucket": "godurationsbucket"}
 
 def units_of(prop):
     us = []
